@@ -240,3 +240,10 @@ func H_C05_destroy() {
 	vAssert(vFSOpenFDs() == 0, "no-descriptor-left-open-after-destroy")
 	vReach("end")
 }
+
+//verif:witness H_C05_rolling_concurrent end
+//verif:bound C05 all descriptors of a running rolling file appender: 2 concurrent writers x 1 write each under the symbolic clock (interval 1 s, stall rule of C13), pre-emption at every visible operation with at most 2 pre-emptive switches: at most two descriptors once both writes have returned, none after Stop
+//verif:engine-only H_C05_rolling_concurrent
+func H_C05_rolling_concurrent() {
+	vRollConcurrent(true, 1, 2, 0)
+}
